@@ -22,9 +22,18 @@ package bufmodulestore
 // and only after every earlier write reported success; any write failure makes the store fail.
 //@ func (p *moduleDataStore) putModuleData(ctx, moduleData) (retErr)
 //@   property C09
-//@   modifies heap, ghost.fail, ghost.wfail, ghost.sinkPaths, ghost.lastPutOptions, ghost.buf
+//@   modifies heap, ghost.fail, ghost.wfail, ghost.sinkPaths, ghost.sinkBuckets, ghost.lastPutOptions, ghost.buf
 //@   requires !ghost.wfail
 //@   ensures failure-reported: ghost.wfail ==> retErr != nil
 //@   ensures marker-atomic: retErr == nil ==> ghost.lastPutOptions == old(ghost.lastPutOptions) || (len(ghost.lastPutOptions) == 1 && ghost.lastPutOptions[0] == storage.PutWithAtomic())
 //@   assert before "return storage.PutPath(" marker-last: !ghost.wfail
 //@   assert before "return storage.PutPath(" marker-after-files: externalModuleData.FilesDir == externalModuleDataFilesDir
+//@   assert before "depModuleKeys, err := moduleData.DepModuleKeys()" only-module-dir-read: !old(p.tar) ==> (old(p.bucket) in ghost.sinkBuckets ==> old(p.bucket) in old(ghost.sinkBuckets))
+//
+//@ trusted func (p *moduleDataStore) logDebugModuleKey(ctx, moduleKey, message, fields)
+//@ trusted pure func getModuleDataStoreDirPath(moduleKey) (r, err)
+//@ trusted pure func getModuleDataStoreDirLockPath(moduleKey) (r, err)
+//@ trusted pure interface bufmodule.ModuleKey
+//@ trusted pure func (bufmodule.ModuleData) ModuleKey() (r)
+//@ trusted pure interface bufmodule.ObjectData
+//@ trusted pure func (e externalModuleData) isValid() (r)
